@@ -6,7 +6,7 @@ from d42.validation import Formatter, ValidationException, validate_or_fail
 
 MODULE = "D42.Props.C08Format"
 THEOREMS = ["validate_ok", "format_total", "validateOrFail_spec", "validateAll_ok", "validateElems_ok", "windows_ok",
-            "validateFields_ok", "anyOk_ok", "validateScalarX_ok", "floatValueOkX_ok", "formatX_ok_of_renderable"]
+            "validateFields_ok", "anyOk_ok", "validateScalarX_ok", "floatValueOkX_ok", "formatX_ok_of_renderable", "format_shown"]
 FILES = ["D42/Model/Data.lean", "D42/Model/Float.lean", "D42/Model/Validate.lean", "D42/Model/Format.lean", "D42/Props/C08.lean",
          "D42/Props/C03.lean", "D42/Props/C03Facts.lean", "D42/Props/C08Format.lean"]
 
